@@ -36,6 +36,10 @@ pub struct FileEnt {
     pub dir: u16,
     pub stem: String,
     pub kind: Kind,
+    /// name clash: place the file next to directory `clash` (in its parent) under the directory's own name followed
+    /// by a character that sorts below '/' ('.', '-', ' '), so that string order and component-wise order differ
+    #[serde(default)]
+    pub clash: Option<(u16, u8)>,
 }
 
 #[derive(Clone, Debug, Serialize, Deserialize)]
@@ -132,7 +136,16 @@ fn build(case: &Case, base: &Path) -> Result<Built, String> {
     let mut used: std::collections::HashSet<PathBuf> = Default::default();
     let mut real_paths: Vec<Option<PathBuf>> = vec![];
     for (i, f) in case.files.iter().enumerate() {
-        let d = root.join(dir_path(&case.dirs, f.dir as usize % ndirs));
+        let mut d = root.join(dir_path(&case.dirs, f.dir as usize % ndirs));
+        let mut f = f.clone();
+        if let (Some((ci, sepk)), true) = (f.clash, ndirs >= 2) {
+            let di = 1 + (ci as usize % (ndirs - 1));
+            let dp = dir_path(&case.dirs, di);
+            let dname = dp.file_name().unwrap().to_string_lossy().to_string();
+            d = root.join(dp.parent().unwrap_or(std::path::Path::new("")));
+            f.stem = format!("{}{}", dname, ["", "-old", " x", ".1", "!"][sepk as usize % 5]);
+        }
+        let f = &f;
         let name = file_name(f, &case.files);
         let p = d.join(&name);
         if used.contains(&p) || p.exists() {
@@ -167,7 +180,7 @@ fn build(case: &Case, base: &Path) -> Result<Built, String> {
                 wrap(&Codec::Tar { format: 0, pos: 0, decoys: 1, mtime: 1, longname: false }, &data, &d, &stem_name, "member.log")?;
             }
             Kind::Utmp => {
-                let ff = FixedFile { layout: 0, recs: (0..case.messages.max(1)).map(|k| FRec { sec: 1_600_000_000 + k as i64, usec: 0, null: 0, pid: 100 + i as i32, typ: 6, serial: (i * 8 + k as usize) as u32, full: 0 }).collect() };
+                let ff = FixedFile { layout: 0, recs: (0..case.messages.max(1)).map(|k| FRec { sec: 1_600_000_000 + k as i64, usec: 0, null: 0, pid: 100 + i as i32, typ: 6, serial: (i * 8 + k as usize) as u32, full: 0, stale: 0 }).collect() };
                 std::fs::write(&p, ff.render()).map_err(|e| e.to_string())?;
             }
             Kind::Tiny { len } => {
@@ -233,7 +246,7 @@ impl Property for C15 {
         "C15"
     }
     fn rule(&self) -> String {
-        "case = generated directory tree (depth 0..3, 0..12 files; names with spaces, non-ASCII, leading dots; text logs under .log/.1/no suffix and .gz/.xz/.bz2/.lz4, tar archives, utmp files, text logs under known non-log suffixes, empty and tiny files, symlinks to files named like their targets, symlinks in the root to sub-directories); every file carries messages at the same instants so the expansion order is observable in the output. oracle (differential): stdout(s4 DIR) == stdout(s4 <reference expansion>) where the reference expansion is depth-first with names sorted per directory, symlinks followed, known non-log names removed; stdout(s4 a - b <<< c,d) == stdout(s4 a c d b) for a generated split; a non-log-suffixed file named explicitly prints its messages. non-trivial = >=2 files with cross-file ties and (nesting >=2 or a symlink or a skipped suffix); distinct = hash(case).".into()
+        "case = generated directory tree (depth 0..3, 0..12 files; names with spaces, non-ASCII, leading dots; text logs under .log/.1/no suffix and .gz/.xz/.bz2/.lz4, tar archives, utmp files, text logs under known non-log suffixes, empty and tiny files, symlinks to files named like their targets, symlinks in the root to sub-directories; a quarter of the files are named like a sibling directory plus a character that sorts below '/' so that string order and component-wise path order differ); every file carries messages at the same instants so the expansion order is observable in the output. oracle (differential): stdout(s4 DIR) == stdout(s4 <reference expansion>) where the reference expansion is depth-first with names sorted per directory, symlinks followed, known non-log names removed; stdout(s4 a - b <<< c,d) == stdout(s4 a c d b) for a generated split; a non-log-suffixed file named explicitly prints its messages. non-trivial = >=2 files with cross-file ties and (nesting >=2 or a symlink or a skipped suffix); distinct = hash(case).".into()
     }
     fn assumptions(&self) -> Vec<String> {
         vec!["symlink names are chosen so that link and target classify identically (which name governs is not stated by the property)".into(), "directory symlinks never create cycles".into()]
@@ -258,7 +271,7 @@ impl Property for C15 {
             1 => (0u8..6).prop_map(|len| Kind::Tiny { len }),
             2 => any::<u16>().prop_map(|target| Kind::LinkFile { target }),
         ];
-        let file = (any::<u16>(), prop::sample::select(STEMS.to_vec()), kind, any::<u8>()).prop_map(|(dir, stem, kind, n)| FileEnt { dir, stem: format!("{}{}", stem, n % 7), kind });
+        let file = (any::<u16>(), prop::sample::select(STEMS.to_vec()), kind, any::<u8>(), prop::option::weighted(0.25, (any::<u16>(), any::<u8>()))).prop_map(|(dir, stem, kind, n, clash)| FileEnt { dir, stem: format!("{}{}", stem, n % 7), kind, clash });
         (dirs, prop::collection::vec(file, 0..12), prop::collection::vec((prop::sample::select(vec!["lnk", "zz link", "0first"]).prop_map(|s| s.to_string()), any::<u16>()), 0..2), (any::<u16>(), any::<u16>()), 1u8..4)
             .prop_map(|(dirs, files, dirlinks, split, messages)| Case { dirs, files, dirlinks, split, messages })
             .boxed()
